@@ -868,11 +868,11 @@ func main() {
 	}
 
 	// monitor 1
-	reps := c.N(4, 40)
-	opsPer := c.N(6000, 60000)
+	reps := c.N(4, 24)
+	opsPer := c.N(6000, 40000)
 	if isRace {
-		reps = c.N(4, 40)
-		opsPer = c.N(3000, 30000)
+		reps = c.N(4, 16)
+		opsPer = c.N(3000, 15000)
 	}
 	c.Cases("stress", len(ctypes)*reps, func(i int, r *vlib.Rand) {
 		ct := ctypes[i%len(ctypes)]
